@@ -25,8 +25,6 @@ Definition known_C09_keys : list string :=
     "race:icmp6.Close/icmp6.Close:icmp6.closed";
     "panic:icmp6.Close/icmp6.Close:close-of-closed-channel";
     "race:dhcp4.Close/dhcp4.Close:dhcp4.closed";
-    "panic:dhcp4.Close/dhcp4.Close:close-of-closed-channel";
-    "panic:dns.ProcessDNS/dns.Close:nil-map-write";
-    "panic:dns.ProcessMDNS/dns.Close:nil-map-write"].
+    "panic:dhcp4.Close/dhcp4.Close:close-of-closed-channel"].
 
 Definition known_C09 (k : string) : bool := existsb (String.eqb k) known_C09_keys.
